@@ -72,12 +72,13 @@ pub fn gen_redex(r: &mut Rng) -> (String, &'static str) {
         }
         3 => {
             // simplify_transitive_equality
-            let pairs = [("X", "Y"), ("X$i", "Y"), ("X", "X$i"), ("I$i", "K$i"), ("S$s", "X"), ("X$i", "I$i")];
+            let pairs = [("X", "Y"), ("X$i", "Y"), ("X", "X$i"), ("I$i", "K$i"), ("S$s", "X"), ("X$i", "I$i"), ("X$i", "S$s"), ("S$s", "I$i")];
             let (a, b) = pairs[r.upto(pairs.len())];
-            let t = match r.below(4) {
+            let t = match r.below(5) {
                 0 => a.to_string(),
                 1 => b.to_string(),
                 2 => format!("{} * {}", if a.ends_with("$i") { a } else { "I$i" }, if a.ends_with("$i") { a } else { "I$i" }),
+                3 => ["Z", "#inf", "c$g", "W"][r.upto(4)].to_string(),
                 _ => term_over(r, vs, a.ends_with("$i") && b.ends_with("$i")),
             };
             let e1 = eq(r, a, &t);
